@@ -64,6 +64,12 @@ class World(object):
             self.unplugged = True
             raise USBErrorNoDevice()
         k = self.faults.get(idx)
+        if k == 'timeout-partial':
+            # libusb reports a timeout after a part of the transfer went through (python-libusb1 attaches .transferred / .received)
+            e = USBErrorTimeout()
+            e.transferred = 3
+            e.received = b'abc'
+            raise e
         if k:
             raise ERRORS[k]()
 
